@@ -220,10 +220,105 @@ def check_C11(res, ctx):
            "scan / position reads / sizes / byte sums on both I/O back-ends; non-trivial = at least two records"
 
 
+def check_C12(res, ctx):
+    from . import corrupt
+    ndb = 3 if ctx.quick else 12
+    for i in range(ndb):
+        rng = rng_for(ctx.seed, "C12", i)
+        corrupt.check_db(res, ctx, rng, "merged" if i % 3 == 2 else "plain", 4000 if ctx.quick else 40000)
+    for i in range(4 if ctx.quick else 60):
+        corrupt.random_damage(res, ctx, rng_for(ctx.seed, "C12r", i), i)
+    return "every single-bit flip of every byte of the data / hint / marker files of small databases (exhaustive unless counted under files_sampled), " \
+           "then Open + dump + Fold; random multi-byte overwrites, truncations, zero runs and 64-byte garbage on larger ones; oracle: every served " \
+           "value was written for that key, no panic; the byte-exact model must predict the same outcome"
+
+
+def crash_family(res, ctx, tag, kinds, n_quick, n_thorough, io_mix=(0, 0, 0, 1), cuts_quick="few", cuts_thorough="all"):
+    from . import crashcheck
+    n = n_quick if ctx.quick else n_thorough
+    items = []
+    for i in range(n):
+        rng = rng_for(ctx.seed, tag, i)
+        kind = kinds[i % len(kinds)]
+        io = io_mix[i % len(io_mix)]
+        ops, cfg = crashcheck.workload(rng, io=io, kind=kind, nsteps=rng.choice([8, 14, 20]) if ctx.quick else rng.choice([10, 20, 30]))
+        items.append((i, kind, io, ops, cfg))
+
+    def job(it):
+        i, kind, io, ops, cfg = it
+        recs, err, rc = crashcheck.run_crash(ctx, ops, mode="io", cuts=cuts_quick if ctx.quick else cuts_thorough,
+                                             dumpfiles=True)
+        return recs, err, rc
+    results = core.parallel_map(job, items, workers=8)
+    for (i, kind, io, ops, cfg), (recs, err, rc) in zip(items, results):
+        res.count("workload:" + kind)
+        res.count("io%d" % io)
+        crashcheck.evaluate(res, ctx, "%s workload %d (%s, io=%d)" % (tag, i, kind, io), ops, recs, err, rc, pid=ctx.pid)
+        if i < 2:
+            res.sample({"workload": i, "kind": kind, "cfg": cfg, "ops": ops[:14], "events": sum(1 for r in recs if r["kind"] == "event"),
+                        "images": sum(1 for r in recs if r["kind"] == "image")})
+    res.extra["crash_points_visited"] = res.dist.get("images", 0)
+
+
+def check_C03(res, ctx):
+    crash_family(res, ctx, "C03", ["mixed", "mixed", "batch", "sync-batch"], 16, 160)
+    return "every intercepted I/O event of short workloads is a crash point (process death image) and, for files with an unsynced tail, " \
+           "power-loss images cut to synced / middle / all-but-one byte (thorough: every length for tails <= 300 bytes and +-12 around block " \
+           "boundaries); oracle: Open succeeds, the recovered mapping is the reference state after j acknowledged mutations with " \
+           "last-sync <= j <= acknowledged(+1 in flight), and the recovered database keeps working; distinct = (event kind, cut?, recovered dump)"
+
+
+def check_C04(res, ctx):
+    crash_family(res, ctx, "C04", ["batch", "batch", "sync-batch"], 12, 120)
+    # durability across clean restarts, later histories with merges
+    n = 10 if ctx.quick else 150
+    for i in range(n):
+        rng = rng_for(ctx.seed, "C04h", i)
+        cfg = engine.rand_cfg(rng, io=(1 if i % 5 == 4 else 0), fs=rng.choice([4096, 20000, 65536]))
+        g = engine.Gen(rng, cfg, nkeys=6, weights={"batch": 30, "put": 10, "reopen": 6, "merge": 3}, max_val=30000)
+        ops = g.history(50 if ctx.quick else 120)
+        engine_history_check(res, ctx, "batch history %d" % i, ops)
+    return "crash images at every I/O event of batch commits (batches of 0..20 ops, sizes up to several files): recovered state is the state " \
+           "before or after the whole batch composed with a prefix; plus batch-heavy histories with merges and restarts against the reference map"
+
+
+def check_C13(res, ctx):
+    from . import crashcheck
+    n = 24 if ctx.quick else 400
+    for i in range(n):
+        rng = rng_for(ctx.seed, "C13", i)
+        sync = [0, 1, 2, 2][i % 4]
+        cfg = {"fs": rng.choice([4096, 20000, 65536]), "sync": sync, "bps": rng.choice([1, 100, 4096, 1 << 20]) if sync == 2 else 0,
+               "idx": rng.choice([1, 2, 3]), "io": 1 if i % 6 == 5 else 0, "shards": 16}
+        g = engine.Gen(rng, cfg, nkeys=5, weights={"reopen": 2, "merge": 1, "keys": 0, "fold": 0, "dump": 0, "stat": 0, "getabsent": 0,
+                                                   "emptykey": 0, "get": 1, "sync": 5, "batch": 12}, max_val=rng.choice([200, 5000, 40000]))
+        ops = [o for o in g.history(30 if ctx.quick else 60) if o.split()[0] not in ("dump", "stat", "files")]
+        recs, err, rc = crashcheck.run_crash(ctx, ops, mode="points", cuts="none", dumpfiles=False)
+        if rc != 0:
+            res.violation("C13 run %d died: %s" % (i, err[-300:]), {"ops": ops})
+            continue
+        problems = crashcheck.sync_policy_check(res, "run %d" % i, ops, recs)
+        res.case("%d|%s" % (i, len(recs)), True)
+        res.count("strategy%d" % sync)
+        res.count("io%d" % cfg["io"])
+        res.count("sync_events", sum(1 for r in recs if r["kind"] == "event" and r["ev"] == "sync"))
+        if problems:
+            res.violation("run %d (%s): %s" % (i, cfg, problems[0]), {"ops": ops, "problems": problems[:5], "cfg": cfg})
+        if i < 2:
+            res.sample({"cfg": cfg, "ops": ops[:10], "events": [(r["ev"], r["file"], r["n"]) for r in recs if r["kind"] == "event"][:12]})
+    return "operation sequences under each SyncStrategy / BytesPerSync / batch Sync option / I/O type; the per-file write/sync event log is " \
+           "inspected at the return of every public call: Always => nothing unflushed; Threshold => < BytesPerSync record bytes unflushed; " \
+           "Sync batch => nothing unflushed at Commit; Sync()/Close() => nothing unflushed; a file is flushed before a new data file is created"
+
+
 CHECKS = {
     "C01": check_C01,
     "C02": check_C02,
     "C11": check_C11,
+    "C12": check_C12,
+    "C03": check_C03,
+    "C04": check_C04,
+    "C13": check_C13,
 }
 
 ASSUME = {
